@@ -344,6 +344,48 @@ def _chart_errors_ok():
 _gen_family("chart", "chart formatting objects of a line chart", CHART_OPS, "_chart_apply", "_chart_root", "CT_ChartSpace", ns="CHART_NS")
 
 
+# ------------------------------------------------------------------ slide background (p:bg holds exactly one of p:bgPr / p:bgRef)
+BG_KINDS = ["", "<p:bg><p:bgPr><a:solidFill><a:srgbClr val=\"FF0000\"/></a:solidFill><a:effectLst/></p:bgPr></p:bg>",
+            "<p:bg bwMode=\"white\"><p:bgRef idx=\"1001\"><a:schemeClr val=\"bg1\"/></p:bgRef></p:bg>"]
+BG_OPS = ["read background.fill", "fill.solid()", "fill.background()", "fill.gradient()", "fill.patterned()", "read follow_master_background"]
+
+
+@cond(timeout=600, encodes=["pptx.slide:_Background.fill", "pptx.oxml.slide:CT_CommonSlideData.get_or_add_bgPr", "pptx.oxml.slide:CT_Background.add_noFill_bgPr",
+                            "pptx.slide:Slide.follow_master_background", "pptx.dml.fill:FillFormat.solid", "pptx.dml.fill:FillFormat.gradient"],
+      bound="p:cSld with no background, a p:bgPr background or a p:bgRef background (as slide masters and styled decks have); sequences of 2 "
+            "operations out of 6 (%s): after every step p:cSld validates against CT_CommonSlideData" % ", ".join(BG_OPS))
+def background_sequence(kind: int, o0: int, o1: int) -> bool:
+    """
+    pre: 0 <= kind < len(BG_KINDS) and 0 <= o0 < len(BG_OPS) and 0 <= o1 < len(BG_OPS)
+    post: _
+    """
+    from pptx.slide import Slide
+
+    def root_of(state):
+        sld = parse_xml(
+            "<p:sld %s><p:cSld>%s<p:spTree><p:nvGrpSpPr><p:cNvPr id=\"1\" name=\"\"/><p:cNvGrpSpPr/><p:nvPr/></p:nvGrpSpPr>"
+            "<p:grpSpPr/></p:spTree></p:cSld></p:sld>" % (nsdecls("p", "a", "r"), choose(BG_KINDS, kind)))
+        state["slide"] = Slide(sld, None)
+        return sld.cSld
+
+    def apply(state, op):
+        sl = state["slide"]
+        if op == 0:
+            sl.background.fill
+        elif op == 1:
+            sl.background.fill.solid()
+        elif op == 2:
+            sl.background.fill.background()
+        elif op == 3:
+            sl.background.fill.gradient()
+        elif op == 4:
+            sl.background.fill.patterned()
+        else:
+            sl.follow_master_background
+
+    return _run_ops([o0, o1], apply, root_of, "CT_CommonSlideData", names=BG_OPS)
+
+
 @cond(expect="refute", timeout=300, twin_of="shape_sequence_12")
 def shape_twin(o0: int) -> bool:
     """
